@@ -1,7 +1,9 @@
 (* C08 — active task is always the running one; scheduler is clean after any outcome.
-   Statements only; proofs in proofs/MachineC08.v (first five theorems) and proofs/MachineC08U.v (the rest).
-   All theorems are about the executable machine of Machine.v and hold for EVERY program (nested synchronous
-   calls `Let`/`Sync` included; no tree restriction), every parameter record, flush oracle and fuel.
+   Statements only; proofs in proofs/MachineC08.v (first five theorems), proofs/MachineC08U.v (the next block) and
+   proofs/MachineNoUnwind.v (the last block, tree / stree programs only).
+   All theorems are about the executable machine of Machine.v and, except for the last block, hold for EVERY
+   program (nested synchronous calls `Let`/`Sync` included; no tree restriction), every parameter record, flush
+   oracle and fuel.
 
    Exceptions unwind through asynq's own frames from two places only (C08_unwind_sources): the
    MAX_TASK_STACK_SIZE guard (RuntimeError, E_RUNTIME) and _queue_exit (FutureIsAlreadyComputed, E_ALREADY).
